@@ -365,6 +365,12 @@ func readBlockString(s *source.Source, start int) (Token, error) {
 
 		position += n
 		runePosition++
+		if code == 0x000a || code == 0x000d {
+			// a new line starts: error offsets count bytes up to the start of
+			// the line (location.GetLocation finds lines by byte index) and
+			// code points only within it
+			runePosition = position
+		}
 	}
 
 	return Token{}, gqlerrors.NewSyntaxError(s, runePosition, "Unterminated string.")
